@@ -9,7 +9,7 @@ func registerMore(m map[string]propSpec) {
 	m["C01"] = c01
 	m["C10"] = propSpec{Level: "model_checking", Engines: []engine{{Harness: "mux", Overlay: "mux", Name: "mux", Shards: -1, MemMB: 4096}}}
 	m["C11"] = propSpec{Level: "model_checking", Engines: []engine{{Harness: "mux", Overlay: "mux", Name: "mux", Shards: -1, MemMB: 4096}}}
-	m["C09"] = propSpec{Level: "model_checking", Engines: []engine{{Harness: "syncx", Overlay: "base"}}}
+	m["C09"] = propSpec{Level: "model_checking", Engines: []engine{{Harness: "syncx", Overlay: "base", Name: "seam"}, {Harness: "syncx", Overlay: "base", Name: "full"}}}
 	m["C07"] = propSpec{Level: "fault_enumeration", Engines: []engine{
 		{Harness: "faults", Overlay: "base", Name: "answers"},
 		{Harness: "faults", Overlay: "base", Name: "cuts", Shards: 2},
